@@ -75,7 +75,21 @@ func c17Variant(r *rng, base string) string {
 		k = len(lines) - i
 	}
 	block := append([]string(nil), lines[i:i+k]...)
-	switch r.intn(3) {
+	kind := r.intn(4)
+	if kind == 3 {
+		// swap a directive keyword for another one of the same length: every token keeps its place,
+		// length and type, only the declaration modifier of the argument changes
+		for li, ln := range lines {
+			for _, pair := range [][2]string{{"account ", "capture "}, {"capture ", "account "}, {"comment ", "account "}} {
+				if strings.HasPrefix(ln, pair[0]) {
+					lines[li] = pair[1] + ln[len(pair[0]):]
+					return strings.Join(lines, "\n")
+				}
+			}
+		}
+		kind = 0
+	}
+	switch kind {
 	case 0: // duplicate the block right behind itself
 		rest := append([]string(nil), lines[i+k:]...)
 		lines = append(append(lines[:i+k], block...), rest...)
